@@ -157,7 +157,8 @@ Definition ex_customs : list custom :=
 Definition ex_afmt : afmt :=
   {| fFields := ["src_addr"; "cust0"; "time_received_ns"; "cust1"; "icmp_name"; "proto"; "dst_addr"];
      fRename := [("proto", "protocol")];
-     fRender := [("time_received_ns", "datetimenano"); ("cust1", "etype"); ("dst_addr", "none")] |}.
+     fRender := [("time_received_ns", "datetimenano"); ("cust1", "etype"); ("dst_addr", "none")];
+     fKeys := ["src_addr"; "cust0"] |}.
 Definition ex_msg : msg :=
   madd_unk (madd_unk
     (msetI (msetB (msetB (msetI empty_msg cProto 6) cSrcAddr [10;0;0;1]) cDstAddr [10;0;0;2]) cTimeRecv 1700000000123000000)
